@@ -284,6 +284,7 @@ class Model:
                     c.methods[name] = m_
                     self.functions[m_.qname] = m_
                     self.pulled_up[m_.qname] = g.qname
+        self._rehome_externalised_methods(known, short)
         self._properties_to_methods(known, short)
         self._generators_to_lists(known, short)
         self._expand_new_derived_attributes()
@@ -311,6 +312,120 @@ class Model:
         sites = self._attr_sites()
         init_only = {a for a, d in sites.items() if isinstance(d, dict) and d["init_only"] and not d["mutated"]} if not sites.get("*") else set()
         _ln.SIZED_ATTRS = _ln.sized_attributes([f.node for f in self.functions.values()], init_only)
+
+    def _rehome_externalised_methods(self, known: set, short) -> None:
+        """A method `C._m(self, a, b)` of the confirmed tree that has become a module-level function `m(obj, a, b)` (same name up to
+        leading underscores, not on the confirmed tree) which C's methods call with `self` / `self.<attr>` in the object slots is
+        analysed as the method it was: the function's body with those parameters written out as the `self` expressions every call site
+        passes, the remaining parameters as the method's own; C's call sites are rewritten to `self._m(..)`.  When no other call of
+        the function is left in the package it is taken out of the index (it *is* the method now)."""
+        import copy as _cp
+        for c in list(self.classes.values()):
+            for k in sorted(known):
+                cn, _, mn = k.partition(".")
+                if cn != c.name or not mn or mn in c.methods or self.lookup(c, mn) is not None:
+                    continue
+                cands = [g for g in self.functions.values() if g.cls is None and g.name.lstrip("_") == mn.lstrip("_") and g.name.lstrip("_")
+                         and short(g.qname) not in known and "." not in g.qname[len(g.module.name) + 1:]]
+                if len(cands) != 1:
+                    continue
+                g = cands[0]
+                a = g.node.args
+                if a.vararg or a.kwarg or a.kwonlyargs or a.posonlyargs or g.node.decorator_list:
+                    continue
+                params = [x.arg for x in a.args]
+                # call sites inside C
+                sites = []
+                for f in c.methods.values():
+                    sn = f.params[0] if f.params else "self"
+                    for n in ast.walk(f.node):
+                        if isinstance(n, ast.Call) and isinstance(n.func, ast.Name) and n.func.id == g.name and self.resolve_name(f.module, g.name) is g:
+                            sites.append((f, sn, n))
+                if not sites or any(n.keywords and any(kw.arg is None for kw in n.keywords) or any(isinstance(x, ast.Starred) for x in n.args) for _f, _s, n in sites):
+                    continue
+
+                def bound(n: ast.Call):
+                    b = {}
+                    for i_, x in enumerate(n.args):
+                        if i_ >= len(params):
+                            return None
+                        b[params[i_]] = x
+                    for kw in n.keywords:
+                        if kw.arg not in params or kw.arg in b:
+                            return None
+                        b[kw.arg] = kw.value
+                    dflt = dict(zip(reversed(params), reversed(a.defaults)))
+                    for p_ in params:
+                        if p_ not in b:
+                            if p_ not in dflt:
+                                return None
+                            b[p_] = dflt[p_]
+                    return b
+
+                def self_expr(e: ast.AST, sn: str):
+                    t = e
+                    while isinstance(t, ast.Attribute):
+                        t = t.value
+                    return isinstance(t, ast.Name) and t.id == sn and isinstance(e, (ast.Name, ast.Attribute))
+                binds = [(f, sn, n, bound(n)) for f, sn, n in sites]
+                if any(b is None for _f, _s, _n, b in binds):
+                    continue
+                obj_params = {}
+                for p_ in params:
+                    texts = set()
+                    ok_ = True
+                    for f, sn, n, b in binds:
+                        if not self_expr(b[p_], sn):
+                            ok_ = False
+                            break
+                        texts.add(ast.unparse(b[p_]).replace(sn, "self", 1) if ast.unparse(b[p_]).startswith(sn) else None)
+                    if ok_ and len(texts) == 1 and None not in texts:
+                        obj_params[p_] = next(iter(texts))
+                if not obj_params:
+                    continue
+                # the object parameters must not be rebound inside the function
+                if any(isinstance(n, ast.Name) and n.id in obj_params and isinstance(n.ctx, (ast.Store, ast.Del)) for n in ast.walk(g.node)):
+                    continue
+                if any(isinstance(n, ast.Name) and n.id == "self" for n in ast.walk(g.node)):
+                    continue
+                node = _cp.deepcopy(g.node)
+                node.name = mn
+
+                class S(ast.NodeTransformer):
+                    def visit_Name(self, n: ast.Name):
+                        if n.id in obj_params and isinstance(n.ctx, ast.Load):
+                            return ast.copy_location(ast.parse(obj_params[n.id], mode="eval").body, n)
+                        return n
+                node.body = [S().visit(b_) for b_ in node.body]
+                rest = [x for x in node.args.args if x.arg not in obj_params]
+                n_def = len(node.args.defaults)
+                keep_defaults = [d for x, d in zip(node.args.args[len(node.args.args) - n_def:], node.args.defaults) if x.arg not in obj_params] if n_def else []
+                node.args.args = [ast.arg(arg="self", annotation=None)] + rest
+                node.args.defaults = keep_defaults
+                ast.fix_missing_locations(node)
+                m_ = FuncInfo(mn, f"{c.qname}.{mn}", node, g.module, c)
+                c.methods[mn] = m_
+                self.functions[m_.qname] = m_
+                self.pulled_up[m_.qname] = g.qname
+                rest_names = [x.arg for x in rest]
+                for f, sn, n, b in binds:
+                    n.func = ast.copy_location(ast.Attribute(value=ast.Name(id=sn, ctx=ast.Load()), attr=mn, ctx=ast.Load()), n.func)
+                    n.args = [b[p_] for p_ in rest_names]
+                    n.keywords = []
+                    ast.fix_missing_locations(n)
+                # any call left elsewhere?  then the function stays in the index as what it is
+                left = False
+                for f in self.functions.values():
+                    if f is m_:
+                        continue
+                    for n in ast.walk(f.node):
+                        if isinstance(n, ast.Call) and isinstance(n.func, ast.Name) and n.func.id == g.name and self.resolve_name(f.module, g.name) is g:
+                            left = True
+                        if isinstance(n, ast.Call) and isinstance(n.func, ast.Attribute) and n.func.attr == g.name and not isinstance(n.func.value, ast.Name):
+                            pass
+                if not left:
+                    self.functions.pop(g.qname, None)
+                    g.module.functions.pop(g.name, None)
 
     def _properties_to_methods(self, known: set, short) -> None:
         """A read-only `@property` the confirmed tree does not have is a parameterless helper method in disguise: reads `x.P` become
